@@ -111,6 +111,9 @@ FIXED_PROGRAMS: List[Program] = [
     # namespaced functions whose dotted components contain digits are functions too (seeded change C01_r3mut2)
     (Eq(Var('Y'), Bin('+', Call('np.log10', (Var('X'),)), Call('np.log1p', (Var('Z', off=-1),)))),),
     (Eq(Var('Y'), Call('np.arctan2', (Var('X'), Call('np.expm1', (Var('Y', off=-1),))))), Eq(Var('W'), Call('np.log2', (Var('Y'),)))),
+    # namespaced USER functions whose last component is spelt like a function fsic replaces (exp, log, max, min): untouched
+    (Eq(Var('Y'), Bin('+', Call('my.exp', (Var('X'),)), Call('my.log', (Var('Z', off=-1),)))),),
+    (Eq(Var('Y'), Call('my.max', (Var('X'), Call('my.min', (Var('Z'), Var('W', off=-1)))))), Eq(Var('V'), Call('max', (Call('my.exp', (Var('Y'),)), Var('X'))))),
     # the same equation twice is one equation
     (Eq(Var('Y'), Bin('+', Var('X'), Num('1'))), Eq(Var('Y'), Bin('+', Var('X'), Num('1')))),
     # soft keywords and the bare underscore are ordinary identifiers (seeded change C01_r2mut2)
